@@ -170,6 +170,7 @@ pub async fn run_sender_with_config(
     // Run housekeeping once before entering the main event loop so we start in a clean state.
     {
         let classic = config.mode().is_classic();
+        srtla_core::selection::refresh_conn_timeouts(&mut connections, &config.snapshot());
         if let Err(err) = handle_housekeeping(
             &mut connections,
             &mut conn_io,
@@ -251,6 +252,7 @@ pub async fn run_sender_with_config(
                     }
                     _ = housekeeping_timer.tick() => {
                         let classic = config.mode().is_classic();
+                        srtla_core::selection::refresh_conn_timeouts(&mut connections, &config.snapshot());
                         if let Err(err) = handle_housekeeping(
                             &mut connections,
                             &mut conn_io,
